@@ -126,7 +126,7 @@ def decoders(ctx, report):
         # every Return of a member must sit under a comparison between member.value.code and the parsed value,
         # or be a next(iter([... if x.value.code == code]))
         for node in ast.walk(f.node):
-            if isinstance(node, (ast.For, ast.ListComp)):
+            if isinstance(node, (ast.For, ast.ListComp, ast.GeneratorExp)):
                 tests = []
                 if isinstance(node, ast.For):
                     var = node.target.id if isinstance(node.target, ast.Name) else None
